@@ -53,7 +53,7 @@ static char *mutate(const char *src, int k, int i) {
 	return res;
 }
 static const uint8_t BYTES[12] = {':', '-', ' ', '\n', '#', '[', '{', '"', '&', '*', 0x00, 0xFF};
-typedef struct { uint8_t file; uint8_t kind; uint16_t line; uint8_t mode; uint8_t base; } c13_case_t;   /* mode 0 structural, 1 byte fault (line = offset, kind = byte index), 2 missing file, 3 empty file */
+typedef struct { uint8_t file; uint8_t kind; uint16_t line; uint8_t mode; uint8_t base; uint8_t prior; /* 1: a complete earlier session (valid start, stop) precedes the start under test; 2: an earlier session against a silent interface (start fails after its threads ran) */ } c13_case_t;   /* mode 0 structural, 1 byte fault (line = offset, kind = byte index), 2 missing file, 3 empty file */
 static const char *FILEN[3] = {"board", "track", "train"};
 
 /* base configuration 1: the standard configuration with ZERO wherever a number, port, address, value or bit may be zero.
@@ -73,6 +73,14 @@ static void zero_heavy(cm_model_t *m) {
 static void base_model(int base) { cm_std(&M); if (base == 1) zero_heavy(&M); }
 static int silent; static int hook(int node, const rc_msg_t *m) { (void) node; (void) m; return silent; }
 static int run_case(const c13_case_t *c, char *human, size_t hn) {
+	if (c->prior) {     /* an earlier session in the same process: whatever it leaves behind (thread handles, queues, per-session values) meets the rejected start */
+		cm_std(&M); cm_install(&M); SB.on_msg = hook; silent = c->prior == 2;
+		int r0 = hx_start_normal(0); hx_quiesce();
+		if (c->prior == 1 && r0 != 0) res_infra("earlier session: valid start failed");
+		if (!r0) { bidib_stop(); hx_quiesce(); }
+		uint8_t *um; while ((um = bidib_read_message())) free(um); while ((um = bidib_read_error_message())) free(um);
+		env_clear_io(); hx_emit_ledger_violations("C13");
+	}
 	base_model(c->base); cm_install(&M); SB.on_msg = hook; silent = 0;
 	const char *txt[3] = {M.board_txt, M.track_txt, M.train_txt}; static char bytebuf[16000];
 	if (c->mode == 0) { char *mt = mutate(txt[c->file], c->kind, c->line); if (!mt) return 0; txt[c->file] = mt; snprintf(human, hn, "%s%s file: %s at line %d", c->base ? "[zero-heavy base] " : "", FILEN[c->file], KNAME[c->kind], c->line + 1); }
@@ -123,7 +131,7 @@ static c13_case_t *cases; static long ncases, capcases;
 static void add_case(c13_case_t c) { if (ncases == capcases) { capcases = capcases ? capcases * 2 : 8192; cases = realloc(cases, sizeof(c13_case_t) * (size_t) capcases); } cases[ncases++] = c; }
 static size_t c13_gen(long idx, uint8_t *payload, char *human, size_t hn) {
 	c13_case_t *c = &cases[idx]; memcpy(payload, c, sizeof *c);
-	if (c->mode == 0) snprintf(human, hn, "%s%s file: %s at line %d", c->base ? "[zero-heavy base] " : "", FILEN[c->file], KNAME[c->kind], c->line + 1);
+	if (c->mode == 0) snprintf(human, hn, "%s%s%s file: %s at line %d", c->prior == 1 ? "[after an earlier session] " : c->prior == 2 ? "[after an earlier failed session] " : "", c->base ? "[zero-heavy base] " : "", FILEN[c->file], KNAME[c->kind], c->line + 1);
 	else if (c->mode == 1) snprintf(human, hn, "%s file: byte %02x at offset %d", FILEN[c->file], BYTES[c->kind], c->line);
 	else if (c->mode == 4) snprintf(human, hn, "unmutated base configuration %d", c->base);
 	else snprintf(human, hn, "%s file %s", FILEN[c->file], c->mode == 2 ? "missing" : "empty");
@@ -142,6 +150,8 @@ int c13_run(const char *tier) {
 		if (!base || thorough) for (size_t o = 0; o < len; o += (size_t) stride) for (int b = 0; b < 12; b++) if ((uint8_t) txt[f][o] != BYTES[b]) add_case((c13_case_t) {(uint8_t) f, (uint8_t) b, (uint16_t) o, 1, (uint8_t) base});
 	}
 	}
+	/* a sample of the structural mutations again as the start of a LATER session (every 9th case, after a clean and after a failed earlier session) */
+	{ long n0 = ncases; int k = 0; for (long i = 0; i < n0; i++) if (cases[i].mode == 0 && cases[i].base == 0 && (k++ % 9) == 0) { c13_case_t c = cases[i]; c.prior = 1 + (k / 9) % 2; add_case(c); } }
 	/* both unmutated bases must be accepted */
 	add_case((c13_case_t) {0, 0, 0, 4, 0}); add_case((c13_case_t) {0, 0, 0, 4, 1});
 	ex_spec_t e = { .harness = "c13.start", .ncases = ncases, .gen = c13_gen, .label = "c13.start" };
